@@ -239,8 +239,7 @@ class SymSeq(sym.Sym):
                 if i >= n:
                     break
                 if 0 <= maxsplit <= len(out):
-                    rest = self._mk(self.items[i:])
-                    out.append(rest.rstrip() if isinstance(rest, SymSeq) else rest.rstrip())
+                    out.append(self._mk(self.items[i:]))      # the remainder keeps its trailing whitespace, as in CPython
                     break
                 j = i
                 while j < n and not self._isws(self.items[j]):
